@@ -282,6 +282,14 @@ def main():
     if not a.prop:
         ap.error("property id required")
     tier = a.tier if a.tier in ("quick", "thorough") else "quick"
+    # watchdog: an analysis that does not finish is "analysis broken", not a hang
+    import signal
+    limit = int(os.environ.get("VERIF_TIME_LIMIT", "1200" if tier == "quick" else "3600"))
+
+    def on_alarm(signum, frame):
+        raise AnalysisBroken("time limit of %d s exceeded (VERIF_TIME_LIMIT)" % limit)
+    signal.signal(signal.SIGALRM, on_alarm)
+    signal.alarm(limit)
     status, lines, ev, broken, ctx = run_property(a.prop.upper(), tier, seed, repo=a.repo, write=not a.no_write)
     for l in lines:
         print(l)
